@@ -6,15 +6,30 @@ Property theorems only.  Model: Rc/Model/Attr.lean (src/bgp/path_attributes.rs,
 update_builder.rs `StandardCommunitiesList`, types.rs, as coded), AS paths via
 Rc/Model/AsPath.lean (C13).  Lemmas: Rc/Lemmas/Attr.lean.
 
-`WfAttrW a` (decidable) = the type invariants of the Rust value (u8/u32 field
-widths, fixed record sizes, the `StandardCommunitiesList` invariant that
-`add_community` maintains) and, for AS_PATH / AS4_PATH, a hop path of C13
-(segment hops of at most 255 ASNs: known finding K2, witnessed below).
-`WfAttr a` = `WfAttrW a` and the path's segment hops are stored four-octet wide
-(what `Segment::new_*` and a four-octet session produce); then decoding gives
-back the identical value, otherwise the value with its segments re-read four
-octets wide (`a.norm`), which Rust's `==` on `HopPath` cannot tell apart.
-All statements are for every one of the 20 kinds and every list length.
+Three decidable predicates on values (all 20 kinds, every list length):
+
+* `WfAttrG a` – **every value the public API can build, minus K2**: the type
+  invariants of the Rust value (u8/u32 field widths, fixed record sizes, the
+  `StandardCommunitiesList` invariant that `add_community` maintains) and, for
+  AS_PATH / AS4_PATH, any hop path of C13's `WfHopsG` (segment hops of any type
+  and width, at most 255 ASNs each: more is known finding K2, witnessed below).
+  The length, header and no-panic clauses are proved for all of these.
+* `WfAttr a` – in addition the hop path holds no non-empty AS_SEQUENCE as ONE
+  `Hop::Segment` and its segment hops are stored four octets wide: the values
+  over C13's quantifier ("hop paths over ASNs, AS_SETs and confederation
+  segments") as `Hop::Asn` + `Segment::new_*` build them and as every decoder
+  returns them. For these `decode (encode a) = a` (`roundtrip`).
+* For a `WfAttrG` value outside `WfAttr` the round trip is stated up to the
+  normal form `a.normG` (AS_SEQUENCE segment hops replaced by their ASNs, segment
+  hops four octets wide): `decode (encode a) = a.normG` (`roundtrip_norm`), with
+  `normG` idempotent, `a.normG = a ↔ WfAttr a`, and `a`, `a.normG` decoding to
+  the same value (`normal_form`). On the real code `HopPath[Segment(AS_SEQUENCE
+  [1,2]), Asn(7)]` encodes to the wire form of `[Asn 1, Asn 2, Asn 7]` and decodes
+  to the latter, which Rust's `==` tells from the original (`Hop::eq` is false
+  for `Segment` against `Asn`): the two denote the same AS path, the wire cannot
+  tell them apart, and routecore's own comment (aspath.rs, `new_sequence`) calls
+  a Sequence segment inside a HopPath inconsistent with `Hop::Asn`. The harness
+  executes such values on every run (`enc aspath:s2/4:1.2,a7`).
 -/
 import Rc.Lemmas.Attr
 
@@ -32,12 +47,12 @@ private theorem composeHeader_length (f c n : Nat) : (composeHeader f c n).lengt
   unfold composeHeader headerLen
   split <;> simp
 
-private theorem enc_shape (a : TypedAttr) (wf : WfAttrW a = true) :
+private theorem enc_shape (a : TypedAttr) (wf : WfAttrG a = true) :
     ∃ v, composeValue a = .ok v ∧ valueLen a = .ok v.length ∧
       encAttr a = .ok (composeHeader a.flags a.code v.length ++ v) ∧
       composeLen a = .ok (headerLen v.length + v.length) ∧
-      validate a.code true v = some true ∧ parseValue a.code true v = .ok a.norm := by
-  obtain ⟨v, h1, h2, h3, h4⟩ := value_spec a wf
+      validate a.code true v = some true ∧ parseValue a.code true v = .ok a.normG := by
+  obtain ⟨v, h1, h2, h3, h4⟩ := value_specG a wf
   exact ⟨v, h1, h2, by simp [encAttr, h1, h2], by simp [composeLen, h2], h3, h4⟩
 
 private theorem table_codes (c cf : Nat) (h : canonicalFlags c = some cf) :
@@ -57,7 +72,7 @@ private theorem table_codes (c cf : Nat) (h : canonicalFlags c = some cf) :
 /-- *"the length the attribute reports before encoding equals the number of
 bytes actually produced"*: `compose_len()` = length of what `compose` writes,
 for every kind and every size. -/
-theorem compose_len_eq (a : TypedAttr) (wf : WfAttrW a = true) :
+theorem compose_len_eq (a : TypedAttr) (wf : WfAttrG a = true) :
     ∃ (bs : Bytes) (n : Nat), encAttr a = .ok bs ∧ composeLen a = .ok n ∧ bs.length = n := by
   obtain ⟨v, _, _, h3, h4, _⟩ := enc_shape a wf
   refine ⟨_, _, h3, h4, ?_⟩
@@ -66,6 +81,8 @@ theorem compose_len_eq (a : TypedAttr) (wf : WfAttrW a = true) :
 example : WfAttr (.communities ⟨[1, 2], 8, false⟩) = true := by decide
 example : WfAttr (.asPath [.asn 64496, .seg ⟨1, true, [1, 2]⟩]) = true := by decide
 example : WfAttr (.extCommunities [[0, 2, 0xfd, 0xe8, 0, 0, 0, 1]]) = true := by decide
+example : WfAttrG (.asPath [.seg ⟨2, true, [1, 2]⟩, .asn 7]) = true := by decide
+example : WfAttr (.asPath [.seg ⟨2, true, [1, 2]⟩, .asn 7]) = false := by decide
 
 /-! ## header -/
 
@@ -73,8 +90,12 @@ example : WfAttr (.extCommunities [[0, 2, 0xfd, 0xe8, 0, 0, 0, 1]]) = true := by
 extended-length form exactly when the value exceeds 255 bytes"*: the first
 octet is the type's canonical flags (those of the `path_attributes!` table for
 the second octet, the type code) plus EXTENDED_LEN iff the value is longer than
-255 bytes; then the length in one resp. two octets; then the value. -/
-theorem canonical_header (a : TypedAttr) (wf : WfAttrW a = true) :
+255 bytes; then the length in one resp. two octets; then the value.
+(`TypedAttr.flags` is DEFINED as the model's table entry, so the conjunct
+`canonicalFlags tc = some a.flags` says "the octet written is the table's entry
+for the code written"; that the table is the RFCs' is judged by the harness'
+independent `TABLE` on every run.) -/
+theorem canonical_header (a : TypedAttr) (wf : WfAttrG a = true) :
     ∃ (v : Bytes) (fl tc : UInt8) (rest : Bytes), composeValue a = .ok v ∧
       encAttr a = .ok (fl :: tc :: rest) ∧
       canonicalFlags tc.toNat = some a.flags ∧ tc.toNat = a.code ∧
@@ -100,7 +121,7 @@ theorem canonical_header (a : TypedAttr) (wf : WfAttrW a = true) :
       simp [hx, this]
 
 /-- EXTENDED_LEN is set iff the value is longer than 255 bytes. -/
-theorem ext_iff (a : TypedAttr) (wf : WfAttrW a = true) :
+theorem ext_iff (a : TypedAttr) (wf : WfAttrG a = true) :
     ∃ (v : Bytes) (fl : UInt8) (rest : Bytes), composeValue a = .ok v ∧
       encAttr a = .ok (fl :: rest) ∧ (extBit fl = true ↔ v.length > 255) := by
   obtain ⟨v, h1, _, h3, _, _⟩ := enc_shape a wf
@@ -113,14 +134,15 @@ theorem ext_iff (a : TypedAttr) (wf : WfAttrW a = true) :
 
 /-! ## round trip -/
 
-/-- the general form: for all 20 kinds, all list lengths and path segments
-stored in either width, decoding the encoding (four-octet session) gives the
-value with its path segments four octets wide – whatever follows the attribute
-in the buffer. The value must have an encoding at all (at most 65535 bytes). -/
-theorem roundtrip_norm (a : TypedAttr) (wf : WfAttrW a = true)
+/-- the general form, for EVERY API-buildable value (all 20 kinds, all list
+lengths, hop paths holding any segment hops): decoding the encoding (four-octet
+session) gives the value's normal form `a.normG` – whatever follows the
+attribute in the buffer. The value must have an encoding at all (at most 65535
+bytes). -/
+theorem roundtrip_norm (a : TypedAttr) (wf : WfAttrG a = true)
     (fit : ∀ v, composeValue a = .ok v → v.length ≤ 65535) :
     ∃ bs : Bytes, encAttr a = .ok bs ∧
-      ∀ r : Bytes, decAttr true (bs ++ r) = .ok (.ok (.typed a.norm), r) := by
+      ∀ r : Bytes, decAttr true (bs ++ r) = .ok (.ok (.typed a.normG), r) := by
   obtain ⟨v, h1, _, h3, _, h5, h6⟩ := enc_shape a wf
   obtain ⟨hf, _, hlt⟩ := flags_cases a
   refine ⟨_, h3, fun r => ?_⟩
@@ -130,38 +152,66 @@ theorem roundtrip_norm (a : TypedAttr) (wf : WfAttrW a = true)
 
 /-- *"encoding it and decoding the result (with 4-octet AS numbers) yields an
 equal value"*: for all 20 kinds and all list lengths the decoded value is
-*identical* to the original. -/
+*identical* to the original – for every value in normal form (`WfAttr`: what
+`Hop::Asn` + `Segment::new_*` build and what every decoder returns; for the 18
+kinds without a hop path that is every value). -/
 theorem roundtrip (a : TypedAttr) (wf : WfAttr a = true)
     (fit : ∀ v, composeValue a = .ok v → v.length ≤ 65535) :
     ∃ bs : Bytes, encAttr a = .ok bs ∧
       ∀ r : Bytes, decAttr true (bs ++ r) = .ok (.ok (.typed a), r) := by
   have hw : WfAttrW a = true := by
     simp only [WfAttr, Bool.and_eq_true] at wf; exact wf.1
-  have := roundtrip_norm a hw fit
-  rwa [norm_of_wf a wf] at this
+  have hg := wfAttrG_of_wfAttrW a hw
+  have := roundtrip_norm a hg fit
+  rwa [(normG_eq_self_iff a hg).mpr wf] at this
 
-/-- ... and what comes out of the decoder is again well formed and re-encodes
-to the same bytes (decode -> encode -> decode is stable). -/
-theorem norm_wf (a : TypedAttr) (wf : WfAttrW a = true) : WfAttr a.norm = true := by
-  cases a <;> first
-    | (simp only [WfAttr, TypedAttr.norm, pathsFour, Bool.and_true]; exact wf)
-    | (rename_i h
-       simp only [WfAttrW] at wf
-       obtain ⟨w, _, _, c2, _, _, _, c6⟩ := compose_read h wf
-       obtain ⟨ss, hss, _, hseg, hh, _⟩ := wire_view true w c2
-       have e : hopsOfSegs ss = h.map (Hop.norm true) := by
-         rw [c6] at hh; exact (Outcome.ok.inj hh).symm
-       simp only [WfAttr, WfAttrW, TypedAttr.norm, pathsFour, Bool.and_eq_true]
-       rw [← e]
-       exact ⟨wfHops_hopsOfSegs true ss hss, allFour_hopsOfSegs ss (fun s hs => (hss s hs).2)⟩)
+/-- the clause with Rust's own `==`: for every value over C13's quantifier
+(`WfAttrW`: segment hops stored in EITHER width, e.g. cut out of a two-octet
+path) the decoded value compares `==` to the original – `PathAttribute::eq`,
+whose `Hop::eq` is blind to the storage width. -/
+theorem roundtrip_eq (a : TypedAttr) (wf : WfAttrW a = true)
+    (fit : ∀ v, composeValue a = .ok v → v.length ≤ 65535) :
+    ∃ (bs : Bytes) (d : TypedAttr), encAttr a = .ok bs ∧ d.eqRust a = true ∧
+      ∀ r : Bytes, decAttr true (bs ++ r) = .ok (.ok (.typed d), r) := by
+  obtain ⟨bs, e, dd⟩ := roundtrip_norm a (wfAttrG_of_wfAttrW a wf) fit
+  refine ⟨bs, a.norm, e, eqRust_norm a, fun r => ?_⟩
+  rw [← normG_eq_norm a wf]; exact dd r
+
+example : WfAttrW (.asPath [.seg ⟨1, false, [1, 2]⟩, .asn 7]) = true := by decide
+
+/-- ... whereas `==` does tell a hop path holding an AS_SEQUENCE as one segment
+hop from its normal form (the disclosed limit of the round trip). -/
+example : (TypedAttr.asPath [.seg ⟨2, true, [1, 2]⟩, .asn 7]).normG.eqRust
+    (.asPath [.seg ⟨2, true, [1, 2]⟩, .asn 7]) = false := by decide
+
+/-- what comes out of the decoder is in normal form (`WfAttr`), so it round-trips
+exactly (decode -> encode -> decode is stable). -/
+theorem norm_wf (a : TypedAttr) (wf : WfAttrG a = true) : WfAttr a.normG = true :=
+  normG_wf a wf
+
+/-- the normal form is one: `normG` is idempotent; a value is its own normal
+form exactly when it is `WfAttr`; the normal form keeps the type code; and a
+value and its normal form decode to the SAME value after encoding – a receiver
+cannot tell them apart. -/
+theorem normal_form (a : TypedAttr) (wf : WfAttrG a = true)
+    (fit : ∀ b, b = a ∨ b = a.normG → ∀ v, composeValue b = .ok v → v.length ≤ 65535) :
+    a.normG.normG = a.normG ∧ (a.normG = a ↔ WfAttr a = true) ∧ a.normG.code = a.code ∧
+      ∃ bs bs' : Bytes, encAttr a = .ok bs ∧ encAttr a.normG = .ok bs' ∧
+        decAttr true bs = .ok (.ok (.typed a.normG), []) ∧
+        decAttr true bs' = .ok (.ok (.typed a.normG), []) := by
+  obtain ⟨bs, e1, d1⟩ := roundtrip_norm a wf (fit a (Or.inl rfl))
+  obtain ⟨bs', e2, d2⟩ := roundtrip (a.normG) (normG_wf a wf) (fit a.normG (Or.inr rfl))
+  refine ⟨normG_idem a, normG_eq_self_iff a wf, normG_code a, bs, bs', e1, e2, ?_, ?_⟩
+  · simpa using d1 []
+  · simpa using d2 []
 
 /-- the same for a whole run of attributes: writing any list of well-formed
 values one after the other and iterating `PathAttributes` + `to_owned` over
 the bytes gives back exactly those values, in order, nothing more. -/
 theorem roundtrip_list : ∀ (as : List TypedAttr),
-    (∀ a ∈ as, WfAttrW a = true ∧ ∀ v, composeValue a = .ok v → v.length ≤ 65535) →
+    (∀ a ∈ as, WfAttrG a = true ∧ ∀ v, composeValue a = .ok v → v.length ≤ 65535) →
     ∃ bs : Bytes, encAll as = .ok bs ∧
-      ∀ f, bs.length ≤ f → decAll true f bs = .ok (as.map fun a => .ok (.typed a.norm))
+      ∀ f, bs.length ≤ f → decAll true f bs = .ok (as.map fun a => .ok (.typed a.normG))
   | [], _ => ⟨[], rfl, fun f _ => by cases f <;> simp [decAll]⟩
   | a :: r, h => by
     obtain ⟨hw, hfit⟩ := h a (by simp)
@@ -229,7 +279,9 @@ def lengthRule (code : Nat) (four : Bool) (n : Nat) : Bool :=
   else true
 
 /-- every typed code of the table has a rule, and for the 18 non-path types
-`validate` is exactly the length rule – for every length `n`. -/
+`validate` is exactly the length rule – for every length `n`. (`lengthRule` is a
+second copy of the rules typed in Lean from the RFCs; the copy independent of
+Lean is the harness' `ref_rule`.) -/
 theorem validate_is_length_rule (code cf : Nat) (four : Bool) (v : Bytes)
     (hc : canonicalFlags code = some cf) (h2 : code ≠ 2) (h17 : code ≠ 17) :
     validate code four v = some (lengthRule code four v.length) := by
@@ -323,7 +375,9 @@ abbrev RawAttr := UInt8 × UInt8 × Bytes
 def encSection (sec : List RawAttr) : Bytes := sec.flatMap fun x => rawAttr x.1 x.2.1 x.2.2
 
 /-- MP_REACH_NLRI shorter than AFI + SAFI + next-hop length + reserved (5), or
-MP_UNREACH_NLRI shorter than AFI + SAFI (3) – RFC 4760. -/
+MP_UNREACH_NLRI shorter than AFI + SAFI (3) – RFC 4760: the length rule of the
+fixed part, the only malformation of these two attributes the theorem below
+speaks about. -/
 def mpShort (x : RawAttr) : Bool :=
   (x.2.1.toNat == 14 && decide (x.2.2.length < 5)) || (x.2.1.toNat == 15 && decide (x.2.2.length < 3))
 
@@ -390,11 +444,17 @@ private theorem mpPeek_spec : ∀ (sec : List RawAttr) (f : Nat),
       exact mp_step _ _ _
 
 /-- *"... except the two multiprotocol NLRI attributes, whose malformation
-rejects the message"*: for an attribute section made of any complete
-attributes (whatever their types, flags and values – in particular values that
-violate a length rule, which are surfaced as invalid), the attribute part of
-`UpdateMessage::parse` fails **iff** the section holds an MP_REACH_NLRI shorter
-than 5 or an MP_UNREACH_NLRI shorter than 3 bytes. -/
+rejects the message"*, read as the LENGTH RULE of their fixed part (the sentence
+this closes is about values violating a type's length rules): for an attribute
+section made of any complete attributes (whatever their types, flags and values
+– in particular values that violate a length rule, which are surfaced as
+invalid), the attribute part of `UpdateMessage::parse` fails **iff** the section
+holds an MP_REACH_NLRI shorter than 5 or an MP_UNREACH_NLRI shorter than 3 bytes.
+Read from right to left this also says what the code does NOT reject: an MP
+attribute of sufficient length that is malformed otherwise (next-hop length
+overrunning the value, a prefix longer than its family allows) is accepted here
+and fails later, when the NLRI are iterated. No theorem claims more, and the
+oracle accepts either outcome for such values. -/
 theorem mp_malformed_rejects (sec : List RawAttr) (h : ∀ x ∈ sec, rawFits x.1 x.2.2 = true) :
     attrSection (encSection sec) = if sec.any mpShort = true then .err else .ok () := by
   simp [attrSection, attrsWalk_ok sec _ h (Nat.le_refl _), mpPeek_spec sec _ h (Nat.le_refl _)]
@@ -443,8 +503,9 @@ theorem encode_total_fails : ¬ EncodeTotalStatement := by
     (encode_long_segment_panics _
       (by show 255 < (List.replicate 256 0).length; rw [List.length_replicate]; omega)).1
 
-/-- with the exclusion (`WfAttr`) composing and `compose_len` never panic. -/
-theorem encode_total_partial (a : TypedAttr) (wf : WfAttrW a = true) :
+/-- with exactly that exclusion (`WfAttrG`: segment hops of at most 255 ASNs)
+composing and `compose_len` never panic, for every API-buildable value. -/
+theorem encode_total_partial (a : TypedAttr) (wf : WfAttrG a = true) :
     encAttr a ≠ .panic ∧ composeLen a ≠ .panic := by
   obtain ⟨v, _, _, h3, h4, _⟩ := enc_shape a wf
   simp [h3, h4]
